@@ -19,7 +19,7 @@ func c07Run(c *fw.Case, scenarioSeed uint64, k, k2 int) { c07RunAt(c, scenarioSe
 // c07RunAt: with rpc set, k counts the individual Atomix write RPCs of the system under test instead of decorated
 // calls, so the kill can fall between the two Atomix writes of one store method
 func c07RunAt(c *fw.Case, scenarioSeed uint64, k, k2 int, rpc bool) {
-	p := &engine.Profile{Targets: []string{"t1", "t2"}, MinOps: 3, MaxOps: 6, PMulti: 40, PPoison: 15, PEq: 5, PDevReject: 10, PDelete: 30, PRollback: 15, PEnv: 10, PNoWait: 50, PSync: 20, PStartOffline: 20, PDevFault: 5, Paths: "rich"}
+	p := &engine.Profile{Targets: []string{"t1", "t2"}, MinOps: 3, MaxOps: 6, PMulti: 40, PPoison: 15, PEq: 5, PDevReject: 10, PDelete: 30, PRollback: 15, PEnv: 10, PNoWait: 50, PSync: 20, PStartOffline: 20, PDevFault: 5, PSerializable: 25, Paths: "rich"}
 	opts := world.Options{Targets: p.Targets}
 	w, err := world.New(opts)
 	if err != nil {
